@@ -1,3 +1,111 @@
-From GV Require Import Lib.Tactics Abi.Types Abi.Codec.
-Example C51_nonvacuous : pack_args [TBool] [VBool true] = Ok (pack_num 1).
-Proof. vm_compute. reflexivity. Qed.
+(* Properties/C51.v — Contract ABI encoding round-trips and follows the ABI
+   specification.  Property theorems only; each is closed by [exact] of a lemma of
+   Abi/CodecProofs.v (or by [vm_compute] on a concrete witness), about the model
+   Abi/Codec.v of /repo/accounts/abi (pack.go, type.go, unpack.go, argument.go).
+   [Panic] = the Go code would panic (slice out of range); [Err c] = error class. *)
+From GV Require Import Lib.Tactics Abi.Types Abi.Codec Abi.CodecProofs.
+Local Open Scope Z_scope.
+
+(* the encoding follows the Solidity ABI layout: wherever the specification
+   encoder [enc] (head/tail, offsets relative to the enclosing tuple/array,
+   left/right padding, two's-complement sign extension) is defined, Arguments.Pack
+   produces exactly those bytes; and [enc] is defined on every ABI-typed value *)
+Theorem C51_pack_eq_spec : forall ts vs b,
+  forallb ty_valid ts = true -> enc_args ts vs = Some b -> pack_args ts vs = Ok b.
+Proof. exact pack_args_eq_spec. Qed.
+Print Assumptions C51_pack_eq_spec.
+
+Theorem C51_enc_total : forall ts vs,
+  forall2b wf_value ts vs = true -> exists b, enc_args ts vs = Some b.
+Proof. exact (fun ts vs => enc_total (TTuple ts) (VList vs)). Qed.
+Print Assumptions C51_enc_total.
+
+(* round trip, at full strength: for every argument list of nested types without a
+   zero-size static component ([ty_rt]) and every Go-representable value of it
+   ([val_rt]: includes *big.Int values beyond the declared width of uint24 etc.,
+   which neither Pack nor Unpack range-checks), whatever Pack returns is decoded
+   back to the value.  Guard: the encoding is shorter than 2^63 bytes (the decoder
+   rejects offsets >= 2^63). *)
+Theorem C51_unpack_pack : forall ts vs b,
+  forallb ty_rt ts = true -> forall2b val_rt ts vs = true ->
+  pack_args ts vs = Ok b -> zlen b < 2 ^ 63 ->
+  unpack_args ts b = Ok vs.
+Proof. exact unpack_pack_args. Qed.
+Print Assumptions C51_unpack_pack.
+
+(* for ABI-typed values Pack succeeds, equals the specification encoding and
+   round-trips *)
+Theorem C51_unpack_pack_abi_typed : forall ts vs,
+  forallb ty_rt ts = true -> forall2b wf_value ts vs = true ->
+  exists b, enc_args ts vs = Some b /\ pack_args ts vs = Ok b /\
+            (zlen b < 2 ^ 63 -> unpack_args ts b = Ok vs).
+Proof. exact unpack_pack_wf. Qed.
+Print Assumptions C51_unpack_pack_abi_typed.
+
+(* the [ty_rt] guard is necessary: the FULL statement
+     forall ts vs b, forallb ty_valid ts = true -> forall2b wf_value ts vs = true ->
+       pack_args ts vs = Ok b -> unpack_args ts b = Ok vs
+   is FALSE of the faithful model (and of the Go code): a static component of
+   encoded size 0 (T[0], the empty tuple) in last position is packed to nothing but
+   toGoType demands 32 readable bytes at its position. *)
+Theorem C51_unpack_pack_zero_size_refuted : exists ts vs b,
+  forallb ty_valid ts = true /\ forall2b wf_value ts vs = true /\
+  pack_args ts vs = Ok b /\ unpack_args ts b <> Ok vs.
+Proof.
+  exists [TUInt 8; TFixedArray 0 (TUInt 8)], [VInt 1; VList []], (pack_num 1).
+  vm_compute. repeat split; discriminate.
+Qed.
+Print Assumptions C51_unpack_pack_zero_size_refuted.
+
+(* decoding ANY byte string, for any types NewType can build, never reaches a Go
+   run-time panic: every slice expression of unpack.go is in range *)
+Theorem C51_unpack_total : forall ts data,
+  forallb ty_newtype ts = true -> unpack_args ts data <> Panic.
+Proof. exact unpack_args_np. Qed.
+Print Assumptions C51_unpack_total.
+
+(* canonical prefix.  The FULL statement
+     forall ts b vs b', unpack_args ts b = Ok vs -> pack_args ts vs = Ok b' ->
+       firstn (length b') b = b'
+   is FALSE: the decoder follows any in-range offset (non-canonical layouts are
+   accepted, as the ABI specification permits for non-strict decoders) and ignores
+   some padding. *)
+Theorem C51_unpack_canonical_prefix_refuted : exists ts b vs b',
+  forallb ty_rt ts = true /\ unpack_args ts b = Ok vs /\ pack_args ts vs = Ok b' /\
+  firstn (length b') b <> b'.
+Proof.
+  exists [TBytes], (pack_num 64 ++ pack_num 7 ++ pack_num 1 ++ 97%N :: zeros 31),
+         [VBytes [97%N]], (pack_num 32 ++ pack_num 1 ++ 97%N :: zeros 31).
+  vm_compute. repeat split; discriminate.
+Qed.
+Print Assumptions C51_unpack_canonical_prefix_refuted.
+
+(* what IS proved about accepted non-canonical input (partial form of the
+   canonical-prefix clause), word by word for the elementary types: integer and
+   boolean words are accepted only in canonical form (the accepted word IS the
+   re-encoding), while an address word is accepted with any upper 12 bytes and a
+   bytes<n> word with any trailing 32-n bytes, the re-encoding zeroing them. *)
+Theorem C51_unpack_canonical_word_partial : forall t w v,
+  zlen w = 32 -> forallb byteb w = true -> to_go_type t 0 w = Ok v ->
+  match t with
+  | TUInt _ | TInt _ | TBool => pack t v = Ok w
+  | TAddress => pack t v = Ok (zeros 12 ++ skipn 12 w)
+  | TFixedBytes n => (n <= 32)%N -> pack t v = Ok (firstn (N.to_nat n) w ++ zeros (32 - N.to_nat n))
+  | _ => True
+  end.
+Proof. exact canonical_word. Qed.
+Print Assumptions C51_unpack_canonical_word_partial.
+
+(* non-vacuity: nested dynamic/static types, a *big.Int width, negative numbers *)
+Example C51_nonvacuous :
+  let ts := [TTuple [TUInt 24; TArray TString; TInt 64]; TFixedArray 2 TBool; TBytes] in
+  let vs := [VList [VInt 70000; VList [VBytes [104; 105]%N; VBytes []]; VInt (-5)];
+             VList [VBool true; VBool false]; VBytes [1; 2; 3]%N] in
+  forallb ty_rt ts = true /\ forall2b wf_value ts vs = true /\
+  (exists b, pack_args ts vs = Ok b /\ enc_args ts vs = Some b /\ length b = 448%nat /\
+             unpack_args ts b = Ok vs) /\
+  unpack_args [TBool] (pack_num 2) = Err EBool /\
+  unpack_args [TArray (TUInt 256)] (pack_num 32 ++ pack_num (2 ^ 255)) = Err ELen64.
+Proof.
+  vm_compute. repeat split; try reflexivity. eexists. repeat split; reflexivity.
+Qed.
